@@ -30,10 +30,12 @@ type c11Session struct {
 	off    uint64
 }
 
-func newC11Session(method byte, key [32]byte) *c11Session {
+func newC11Session(method byte, key [32]byte) *c11Session { return newC11SessionMode(method, key, false) }
+
+func newC11SessionMode(method byte, key [32]byte, unordered bool) *c11Session {
 	obfs, _ := MakeObfuscator(method, key)
 	s := &c11Session{obfs: obfs, method: method, key: key}
-	s.sesh = MakeSession(9, SessionConfig{Obfuscator: obfs, MsgOnWireSizeLimit: 16401})
+	s.sesh = MakeSession(9, SessionConfig{Obfuscator: obfs, MsgOnWireSizeLimit: 16401, Unordered: unordered})
 	return s
 }
 
@@ -101,6 +103,10 @@ type c11Case struct {
 	Garbage string // hex-less raw (as latin1) for garbage; generated from Seed when empty
 	Seed    uint64
 	GLen    int
+	// Live: 0 the modified message is a frame of a stream the session has never seen; 1 it is a modified copy of the
+	// next genuine frame of the live probe stream (ordered session) - the genuine frame itself follows; 2 the same on an
+	// unordered (datagram) session
+	Live int `json:",omitempty"`
 }
 
 // c11Mutate builds the variant message for a case from a valid encoded message.
@@ -152,10 +158,17 @@ func c11Mutate(c c11Case, valid []byte) (variant []byte, onlyUnauth bool) {
 func c11Run(c c11Case) (vk.Result, error) {
 	res := vk.Result{NonTrivial: true}
 	key := vKey(c.Key)
-	s := newC11Session(c.Method, key)
+	s := newC11SessionMode(c.Method, key, c.Live == 2)
 	defer s.sesh.Close()
 	if err := s.probe(); err != nil {
 		return res, err
+	}
+	if c.Live > 0 && c.Seq >= 5 {
+		for s.next < 5+c.Seq%3 {
+			if err := s.probe(); err != nil {
+				return res, err
+			}
+		}
 	}
 	payload := make([]byte, c.PayLen)
 	vFill(payload, c.Seed, 0)
@@ -180,13 +193,17 @@ func c11Run(c c11Case) (vk.Result, error) {
 		variant = c11Encode(&o2, &Frame{StreamID: 5, Seq: c.Seq, Payload: payload})
 	default:
 		valid := c11Encode(&s.obfs, &Frame{StreamID: 5, Seq: c.Seq, Payload: payload})
+		if c.Live > 0 {
+			valid = c11Encode(&s.obfs, &Frame{StreamID: 77, Seq: s.next, Payload: payload})
+			res.Labels = append(res.Labels, []string{"", "modified-copy-of-a-live-stream's-next-frame", "modified-copy-of-a-live-stream's-next-frame:unordered"}[c.Live])
+		}
 		variant, onlyUnauth = c11Mutate(c, valid)
 		if variant == nil {
 			return vk.Result{}, nil
 		}
 	}
 	res.Labels = append(res.Labels, "kind="+c.Kind, "method="+vMethodNames[c.Method])
-	res.Key = fmt.Sprintf("%d/%s/%d/%v/%d/%d", c.Method, c.Kind, c.PayLen, c.Pos, c.Bit, c.N)
+	res.Key = fmt.Sprintf("%d/%s/%d/%v/%d/%d/%d", c.Method, c.Kind, c.PayLen, c.Pos, c.Bit, c.N, c.Live)
 	// (1) codec level
 	var f Frame
 	derr := s.obfs.deobfuscate(&f, append([]byte(nil), variant...))
@@ -277,7 +294,7 @@ func TestVerif_C11_Flips(t *testing.T) {
 			case p == 13:
 				field = "extralen"
 			}
-			vk.AddDistinct(prop, sub, uint64(c.Method)<<56|uint64(c.PayLen)<<32|uint64(p)<<8|uint64(c.Bit), 1, "field="+field)
+			vk.AddDistinct(prop, sub, uint64(c.Method)<<56|uint64(c.Live)<<52|uint64(c.PayLen)<<32|uint64(p)<<8|uint64(c.Bit), 1, "field="+field)
 		}
 		for _, m := range vAEADMethods {
 			for _, seq := range []uint64{2, 9} { // with and without padding
@@ -291,6 +308,11 @@ func TestVerif_C11_Flips(t *testing.T) {
 					for p := 0; p < maxLen; p++ {
 						for b := 0; b < 8; b++ {
 							run(c11Case{Method: m, Key: "0102030405060708090a0b0c0d0e0f101112131415161718191a1b1c1d1e1f20", PayLen: pl, Seq: seq, Kind: "flip", Pos: []int{p}, Bit: b, Seed: uint64(p)})
+							if pl == 17 && (p < 14 || p >= 14+pl) {
+								// header and tag bits also on copies of a live stream's own next frame, ordered and unordered
+								run(c11Case{Method: m, Key: "0102030405060708090a0b0c0d0e0f101112131415161718191a1b1c1d1e1f20", PayLen: pl, Seq: seq, Kind: "flip", Pos: []int{p}, Bit: b, Seed: uint64(p), Live: 1})
+								run(c11Case{Method: m, Key: "0102030405060708090a0b0c0d0e0f101112131415161718191a1b1c1d1e1f20", PayLen: pl, Seq: seq, Kind: "flip", Pos: []int{p}, Bit: b, Seed: uint64(p), Live: 2})
+							}
 						}
 					}
 				}
@@ -337,6 +359,9 @@ func c11Gen(rt *rapid.T) c11Case {
 	for i := 0; i < np; i++ {
 		c.Pos = append(c.Pos, rapid.OneOf(rapid.IntRange(0, 13), rapid.IntRange(0, 14+c.PayLen+16)).Draw(rt, "pos"))
 		c.Mask = append(c.Mask, rapid.Byte().Draw(rt, "mask"))
+	}
+	if c.Kind == "flip" || c.Kind == "multi" || c.Kind == "truncate" || c.Kind == "extend" {
+		c.Live = rapid.SampledFrom([]int{0, 0, 1, 2}).Draw(rt, "live")
 	}
 	return c
 }
